@@ -339,38 +339,38 @@ theorem unifyE_complete : (f : Nat) → (eqs : List (Term × Term)) →
 
 /-! ### SLD resolution is sound -/
 
-/-- the renamed clause is valid in the interpretation `I`: every instance of the head holds if the
+/-- the clause is valid in the interpretation `I`: every instance of the head holds if the
     instances of the body goals hold -/
-def ClauseValid (I : Term → Prop) (c : Term) : Prop :=
-  ∀ (next : Nat) (ρ : Nat → Term),
-    (∀ b ∈ (clauseParts (renameClause c next)).2, I (substT ρ b)) →
-    I (substT ρ (clauseParts (renameClause c next)).1)
+def ClauseValid (I : Term → Prop) (c : Clause) : Prop :=
+  ∀ ρ : Nat → Term, (∀ b ∈ c.2, I (substT ρ b)) → I (substT ρ c.1)
 
 /-- every answer of the SLD engine is the call under a substitution that makes all goals true -/
-theorem sld_sound {I : Term → Prop} {clauses : List Term} (hvalid : ∀ c ∈ clauses, ClauseValid I c) :
-    (f : Nat) → (goals args : List Term) → (next : Nat) → (t : List Term) → t ∈ sld clauses f goals args next →
+theorem sld_sound {I : Term → Prop} {clauses : List Clause} (hvalid : ∀ c ∈ clauses, ClauseValid I c) :
+    (f : Nat) → (goals args : List Term) → (t : List Term) → t ∈ sld clauses f goals args →
     ∃ Δ : Nat → Term, t = args.map (substT Δ) ∧ ∀ g ∈ goals, I (substT Δ g)
-  | 0, _, _, _, _, h => by simp [sld] at h
-  | _ + 1, [], args, _, t, h => by
+  | 0, _, _, _, h => by simp [sld] at h
+  | _ + 1, [], args, t, h => by
     simp only [sld, List.mem_singleton] at h
     exact ⟨Term.var, by rw [h, show substT Term.var = id from funext substT_var_id]; simp, fun _ hg => by cases hg⟩
-  | f + 1, g :: gs, args, next, t, h => by
+  | f + 1, g :: gs, args, t, h => by
     simp only [sld, List.mem_flatMap] at h
     obtain ⟨c, hc, ht⟩ := h
     split at ht
     · rename_i δ hδ
-      obtain ⟨Δ', rfl, hΔ'⟩ := sld_sound hvalid f _ _ _ t ht
+      obtain ⟨Δ', rfl, hΔ'⟩ := sld_sound hvalid f _ _ t ht
       refine ⟨fun v => substT Δ' (δ v), by simp [List.map_map, Function.comp_def, substT_comp], ?_⟩
       have hcomp : ∀ u, substT (fun v => substT Δ' (δ v)) u = substT Δ' (substT δ u) :=
         fun u => (substT_comp _ _ u).symm
       intro g' hg'
       rw [hcomp]
       rcases List.mem_cons.mp hg' with rfl | hg'
-      · rw [unifyM_sound hδ, ← hcomp]
-        apply hvalid c hc next
+      · rw [unifyM_sound hδ, substT_comp, substT_comp]
+        apply hvalid c hc
         intro b hb
-        rw [hcomp]
-        exact hΔ' _ (List.mem_map.mpr ⟨b, by simp [hb], rfl⟩)
+        have := hΔ' (substT δ (substT (shift (boundL (g' :: gs ++ args))) b))
+          (List.mem_map.mpr ⟨_, List.mem_append_left _ (List.mem_map.mpr ⟨b, hb, rfl⟩), rfl⟩)
+        rw [substT_comp, substT_comp] at this
+        exact this
       · exact hΔ' _ (List.mem_map.mpr ⟨g', by simp [hg'], rfl⟩)
     · cases ht
 
@@ -388,6 +388,27 @@ theorem bootstrap_tie :
           (Term.a3 "select" (.var 0) (.var 2) (.var 3)) ] := by
   decide +kernel
 
+/-- the clauses as (head, body) pairs -/
+def memberClauses : List Clause :=
+  [ (Term.a2 "member" (.var 0) (Term.consT (.var 0) (.var 1)), []),
+    (Term.a2 "member" (.var 0) (Term.consT (.var 1) (.var 2)), [Term.a2 "member" (.var 0) (.var 2)]) ]
+
+def selectClauses : List Clause :=
+  [ (Term.a3 "select" (.var 0) (Term.consT (.var 0) (.var 1)) (.var 1), []),
+    (Term.a3 "select" (.var 0) (Term.consT (.var 1) (.var 2)) (Term.consT (.var 1) (.var 3)),
+      [Term.a3 "select" (.var 0) (.var 2) (.var 3)]) ]
+
+def appendClausePairs : List Clause :=
+  [ (Term.a3 "append" Term.nilT (.var 0) (.var 0), []),
+    (Term.a3 "append" (Term.consT (.var 0) (.var 1)) (.var 2) (Term.consT (.var 0) (.var 3)),
+      [Term.a3 "append" (.var 1) (.var 2) (.var 3)]) ]
+
+theorem clause_pairs :
+    (bootClauses "member" 2).map clauseParts = memberClauses ∧
+    (bootClauses "select" 3).map clauseParts = selectClauses ∧
+    appendClauses.map clauseParts = appendClausePairs := by
+  decide +kernel
+
 /-- the intended meaning of the goals -/
 def Meaning : Term → Prop
   | .app "member" (.cons x (.cons l .nil)) => memberT [x, l]
@@ -395,88 +416,52 @@ def Meaning : Term → Prop
   | .app "append" (.cons x (.cons y (.cons z .nil))) => appendT [x, y, z]
   | _ => False
 
-theorem conj_app {f : Nat} {g : String} {as : Args} (hg : g ≠ ",") :
-    conj (f + 1) (.app g as) = [.app g as] := by
-  unfold conj
-  split
-  · rename_i h; simp only [Term.app.injEq] at h; exact absurd h.1 hg
-  · rename_i h; cases h
-  · rfl
-
-theorem clauseParts_fact {g : String} {as : Args} (hg : g ≠ ":-") :
-    clauseParts (.app g as) = (.app g as, []) := by
-  unfold clauseParts
-  split
-  · rename_i h; simp only [Term.app.injEq] at h; exact absurd h.1 hg
-  · rfl
-
-theorem clauseParts_rule {h : Term} {g : String} {as : Args} (hg : g ≠ ",") :
-    clauseParts (.app ":-" (.cons h (.cons (.app g as) .nil))) = (h, [.app g as]) := by
-  show (h, conj (Term.app g as).size (.app g as)) = _
-  have : (Term.app g as).size = as.size + 1 := by simp [Term.size, Nat.add_comm]
-  rw [this, conj_app hg]
-
 theorem spine_cons' (h t : Term) :
     (Term.app "." (.cons h (.cons t .nil))).spine = (h :: t.spine.1, t.spine.2) := spine_consT h t
 
-theorem member_clauses_valid : ∀ c ∈ bootClauses "member" 2, ClauseValid Meaning c := by
-  rw [bootstrap_tie.1]
+theorem member_clauses_valid : ∀ c ∈ memberClauses, ClauseValid Meaning c := by
   intro c hc
-  simp only [List.mem_cons, List.not_mem_nil, or_false] at hc
+  simp only [memberClauses, List.mem_cons, List.not_mem_nil, or_false] at hc
   rcases hc with rfl | rfl
-  · intro next ρ _
-    simp only [renameClause, Term.a2, Term.consT, substT, substA]
-    rw [clauseParts_fact (by decide)]
-    simp [substT, substA, Meaning, memberT, spine_cons']
-  · intro next ρ hb
-    simp only [renameClause, Term.a2, Term.consT, substT, substA] at hb ⊢
-    rw [clauseParts_rule (by decide)] at hb ⊢
+  · intro ρ _
+    simp [Term.a2, Term.consT, substT, substA, Meaning, memberT, spine_cons']
+  · intro ρ hb
     have := hb _ (List.mem_singleton.mpr rfl)
-    simp only [substT, substA, Meaning, memberT, spine_cons', Nat.zero_add] at this ⊢
+    simp only [Term.a2, Term.consT, substT, substA, Meaning, memberT, spine_cons'] at this ⊢
     simp [this]
 
-theorem select_clauses_valid : ∀ c ∈ bootClauses "select" 3, ClauseValid Meaning c := by
-  rw [bootstrap_tie.2]
+theorem select_clauses_valid : ∀ c ∈ selectClauses, ClauseValid Meaning c := by
   intro c hc
-  simp only [List.mem_cons, List.not_mem_nil, or_false] at hc
+  simp only [selectClauses, List.mem_cons, List.not_mem_nil, or_false] at hc
   rcases hc with rfl | rfl
-  · intro next ρ _
-    simp only [renameClause, Term.a3, Term.consT, substT, substA]
-    rw [clauseParts_fact (by decide)]
-    simp only [substT, substA, Meaning, selectT, spine_cons']
+  · intro ρ _
+    simp only [Term.a3, Term.consT, substT, substA, Meaning, selectT, spine_cons']
     exact ⟨0, by simp, by simp, by simp [list_spine]⟩
-  · intro next ρ hb
-    simp only [renameClause, Term.a2, Term.a3, Term.consT, substT, substA] at hb ⊢
-    rw [clauseParts_rule (by decide)] at hb ⊢
+  · intro ρ hb
     have := hb _ (List.mem_singleton.mpr rfl)
-    simp only [substT, substA, Meaning, selectT, spine_cons'] at this ⊢
+    simp only [Term.a3, Term.consT, substT, substA, Meaning, selectT, spine_cons'] at this ⊢
     obtain ⟨i, hi, he, hr⟩ := this
     exact ⟨i + 1, by simp [hi], by simp [he], by simp [hr, Term.consT]⟩
 
-theorem append_clauses_valid : ∀ c ∈ appendClauses, ClauseValid Meaning c := by
+theorem append_clauses_valid : ∀ c ∈ appendClausePairs, ClauseValid Meaning c := by
   intro c hc
-  simp only [appendClauses, List.mem_cons, List.not_mem_nil, or_false] at hc
+  simp only [appendClausePairs, List.mem_cons, List.not_mem_nil, or_false] at hc
   rcases hc with rfl | rfl
-  · intro next ρ _
-    simp only [renameClause, Term.a3, Term.nilT, substT, substA]
-    rw [clauseParts_fact (by decide)]
-    simp only [substT, substA, Meaning, appendT]
+  · intro ρ _
+    simp only [Term.a3, Term.nilT, substT, substA, Meaning, appendT]
     have : asList (Term.atom "[]") = some [] := asList_list []
     simp [this]
-  · intro next ρ hb
-    simp only [renameClause, Term.a2, Term.a3, Term.consT, substT, substA] at hb ⊢
-    rw [clauseParts_rule (by decide)] at hb ⊢
+  · intro ρ hb
     have := hb _ (List.mem_singleton.mpr rfl)
-    simp only [substT, substA, Meaning, appendT] at this ⊢
+    simp only [Term.a3, Term.consT, substT, substA, Meaning, appendT] at this ⊢
     split at this
     · rename_i xs hxs
       have hx := asList_eq_some_iff.mp hxs
-      have : asList (Term.app "." (Args.cons (ρ (0 + next)) (Args.cons (ρ (1 + next)) Args.nil))) =
-          some (ρ (0 + next) :: xs) := by
+      have h2 : asList (Term.app "." (Args.cons (ρ 0) (Args.cons (ρ 1) Args.nil))) = some (ρ 0 :: xs) := by
         rw [asList_eq_some_iff, hx]; rfl
-      rw [this]
+      rw [h2]
       simp only [list_cons, Term.consT]
-      rename_i h; rw [h]
+      rw [this]
     · exact this.elim
 
 end PrologVerif.Rel
